@@ -3,7 +3,7 @@
    Model: Model/C20Threads.v (chunking of both call sites, small-step interleaving semantics, scratch split).
    All statements hold for EVERY item count >= 1 and thread count >= 1 (threads not dividing / exceeding the items
    included); items = 0 or threads = 0 make the Rust code panic (chunks_mut(0), division by zero): stated as guards. *)
-From PV Require Import Base.MachineInt Model.C20Threads Proofs.C20Partition Proofs.C20Sched Proofs.C20Scratch Proofs.C20Forced Gen.C20_gen.
+From PV Require Import Base.MachineInt Model.C20Threads Proofs.C20Partition Proofs.C20Sched Proofs.C20Scratch Proofs.C20Shared Proofs.C20Forced Gen.C20_gen.
 From Coq Require Import Arith PeanoNat Permutation.
 Local Open Scope nat_scope.
 
@@ -251,6 +251,34 @@ Theorem C20_forced_schedule_prepare :
 Proof. exact prepare_forced. Qed.
 Print Assumptions C20_forced_schedule_prepare.
 
+(* ---- a module, prepared keys and read-only ciphertexts shared by several threads: they are immutable DATA (part of g,
+        never of the state).  Any threads, any lists of calls (slot, idx) — idx = the complete per-call argument tuple
+        (input, log_domain, extension factor, output layout, mode ...) — pairwise distinct output slots, private scratch:
+        every complete interleaving leaves in each slot what the same call yields alone ---- *)
+Theorem C20_shared_calls_eq_solo :
+  forall (V Sc : Type) (g : nat -> Sc -> V * Sc) (f : nat -> V),
+    (forall i s, fst (g i s) = f i) ->
+    forall (w : list (list item)) (init : nat -> V) (scr0 : nat -> Sc) (sched : list nat) (st : state V Sc),
+      NoDup (map fst (concat w)) ->
+      run_mt V Sc g (Some w) init scr0 sched = Some st ->
+      forall slot idx, In (slot, idx) (concat w) ->
+      forall (init' : nat -> V) (scr0' : nat -> Sc) (sched' : list nat) (st' : state V Sc),
+        run_mt V Sc g (Some [[(slot, idx)]]) init' scr0' sched' = Some st' ->
+        outs V Sc st slot = outs V Sc st' slot.
+Proof. exact shared_calls_eq_solo. Qed.
+Print Assumptions C20_shared_calls_eq_solo.
+
+Theorem C20_shared_calls_closed :
+  forall (V Sc : Type) (g : nat -> Sc -> V * Sc) (f : nat -> V),
+    (forall i s, fst (g i s) = f i) ->
+    forall (w : list (list item)) (init : nat -> V) (scr0 : nat -> Sc) (sched : list nat) (st : state V Sc),
+      NoDup (map fst (concat w)) ->
+      run_mt V Sc g (Some w) init scr0 sched = Some st ->
+      (forall slot idx, In (slot, idx) (concat w) -> outs V Sc st slot = f idx) /\
+      (forall j, ~ In j (map fst (concat w)) -> outs V Sc st j = init j).
+Proof. exact shared_calls_closed. Qed.
+Print Assumptions C20_shared_calls_closed.
+
 (* ---- the hypotheses are satisfiable: concrete non-trivial instances ---- *)
 (* threads does not divide items *)
 Example C20_ex_chunks_32_5 :
@@ -290,3 +318,13 @@ Example C20_ex_forced :
   = Some [[0; 0; 0; 1; 1; 1; 2]; [2; 1; 1; 1; 0; 0; 0]; [0; 1; 2; 0; 1; 0; 1]; [2; 1; 0; 1; 0; 1; 0];
           [2; 0; 0; 0; 1; 1; 1]; [2; 0; 1; 1; 1; 0; 0]; [2; 0; 1; 0; 1; 0; 1]; [1; 0; 0; 0; 1; 1; 2]].
 Proof. vm_compute. reflexivity. Qed.
+(* two threads, different per-call parameters (codes 0 and 1) on shared immutable data, two interleavings, vs alone *)
+Example C20_ex_shared :
+  let g := fun (i : nat) (s : nat) => (Z.of_nat (7 * i + 3), s + 1) in
+  exists st st' a b,
+    run_mt Z nat g (Some [[(0, 0); (2, 0)]; [(1, 1)]]) (fun _ => (-7)%Z) (fun t => t) [1; 0; 0] = Some st /\
+    run_mt Z nat g (Some [[(0, 0); (2, 0)]; [(1, 1)]]) (fun _ => (-7)%Z) (fun t => t) [0; 0; 1] = Some st' /\
+    run_mt Z nat g (Some [[(1, 1)]]) (fun _ => 0%Z) (fun t => 5) [0] = Some a /\
+    run_mt Z nat g (Some [[(0, 0)]]) (fun _ => 0%Z) (fun t => 9) [0] = Some b /\
+    outs Z nat st 1 = outs Z nat a 1 /\ outs Z nat st' 1 = outs Z nat a 1 /\ outs Z nat st 0 = outs Z nat b 0.
+Proof. eexists _, _, _, _. vm_compute. repeat split; reflexivity. Qed.
